@@ -121,6 +121,9 @@ func (c *aeCtx) tiedExcept(ov map[string]override) func(w *world) bool {
 			if strings.HasPrefix(k, "*") && strings.HasSuffix(key, k[1:]) {
 				return o, true
 			}
+			if strings.HasPrefix(k, "~") && strings.Contains(key, k[1:]) {
+				return o, true
+			}
 			if strings.HasSuffix(k, "*") && strings.HasPrefix(key, k[:len(k)-1]) {
 				return o, true
 			}
